@@ -117,6 +117,66 @@ PROPS["C18"] = {
     "assumptions": [],
 }
 
+def _implemented_codes():
+    import os
+    p = os.path.join(os.path.dirname(os.path.dirname(os.path.abspath(__file__))), "inventory", "implemented_codes.txt")
+    return set(open(p).read().split())
+
+
+_IMPL_CODES = None
+
+
+def c19_stats(case, ci):
+    """decode class of the first fetched instruction x outcome of the first step, code length, code placement"""
+    global _IMPL_CODES
+    if _IMPL_CODES is None:
+        _IMPL_CODES = _implemented_codes()
+    out = []
+    new = case[0].split()
+    start = new[2] if len(new) > 2 else "?"
+    nbytes = len(new[1]) // 2 if len(new) > 1 and new[1] != "-" else 0
+    first = next((c for c in case if c.startswith("dec " + start + " ")), None)
+    if first is None:
+        cls = "no-dec"
+    elif first.endswith(" invalid"):
+        cls = "undecodable"
+    else:
+        kv = dict(t.split("=", 1) for t in first.split()[3:] if "=" in t)
+        cls = "implemented" if kv.get("code") in _IMPL_CODES else "unimplemented-or-unsupported"
+        if "?" in kv.get("ops", "") or kv.get("base") == "?" or kv.get("index") == "?":
+            cls += "+foreign-register"
+    step = next((a for c, a in zip(case, ci) if c == "step"), "?")
+    out.append(f"{cls}:{step.split(' ')[0]}")
+    out.append(f"code-bytes:{min(nbytes, 16)}")
+    out.append("placement:" + ("usual" if start == "400000" else "edge"))
+    return out
+
+
+def c19_oracle(case, ci):
+    msgs = []
+    for c, a in zip(case, ci):
+        w = a.split(" ", 1)[0] if a else ""
+        if w in ("panic", "abort", "hang"):
+            first = next((x for x in case if x.startswith("dec ")), "")
+            kv = dict(t.split("=", 1) for t in first.split()[3:] if "=" in t)
+            msgs.append(f"crash:{w}:{c.split(' ')[0]}:{kv.get('code', 'undecodable')}")
+            break
+    return msgs
+
+
+PROPS["C19"] = {
+    "oracle": c19_oracle,
+    "stats": c19_stats,
+    "lean_modules": ["AxVerif.Props.C19"],
+    "gen": "C19",
+    "spec_determined": True,
+    "shards": {"quick": 16, "thorough": 32},
+    "exhaustive": {"quick": [], "thorough": []},
+    "proved_scope": "",
+    "sampled_only_scope": "",
+    "assumptions": [],
+}
+
 NATIVE_SHARDS = {"quick": 8, "thorough": 32}
 _SCOPES = {
     "C01": ("read-after-write through every register view; MUL writes the exact double-width product, CF=OF iff the upper half is non-zero; "
@@ -148,7 +208,7 @@ _SCOPES = {
 for _pid, _asp, _extra in [
     ("C01", {"regs", "rsp", "rip", "xmm", "mem"}, {}),
     ("C02", {"flags"}, {}),
-    ("C03", {"rip", "regs", "rsp", "mem", "flags", "outcome"}, {}),
+    ("C03", {"rip", "regs", "rsp", "mem", "flags", "outcome"}, {"stack_shift": True}),
     ("C04", {"regs", "rsp", "rip", "mem", "outcome", "flags"}, {"stack_shift": True}),
     ("C05", {"regs", "mem", "outcome"}, {}),
     ("C06", {"outcome"}, {}),
